@@ -303,6 +303,28 @@ func (r *Recorder) Check(tb TB, ok bool, key string, c any, format string, args 
 	}
 }
 
+// Pending records the case about to be executed; if the process never comes back from the call (the
+// driver's job timeout fires) the driver re-runs this case alone and reports a hang only if it times
+// out again. Cleared by Done.
+func (r *Recorder) Pending(c any) {
+	if r.out == "" {
+		return
+	}
+	raw, err := json.Marshal(c)
+	if err != nil {
+		return
+	}
+	rep := Replay{Property: r.Prop, Test: r.Test, Key: "hang", Message: "the call did not return within the job's time limit", Tier: r.tier, Seed: r.seed, Case: raw}
+	b, _ := json.Marshal(rep)
+	os.WriteFile(filepath.Join(r.out, fmt.Sprintf("pending-%s-%d.json", r.Test, r.shard)), b, 0o644)
+}
+
+func (r *Recorder) Done() {
+	if r.out != "" {
+		os.Remove(filepath.Join(r.out, fmt.Sprintf("pending-%s-%d.json", r.Test, r.shard)))
+	}
+}
+
 // Health fails the run as a generator/harness problem (exit 2 in the driver), never as a violation.
 func (r *Recorder) Health(ok bool, format string, args ...any) {
 	if ok {
@@ -344,7 +366,7 @@ func (r *Recorder) flush() {
 	}
 	r.mu.Lock()
 	defer r.mu.Unlock()
-	base := fmt.Sprintf("frag-%s-%d", r.Test, r.shard)
+	base := fmt.Sprintf("frag-%s-%d-%d", r.Test, r.shard, os.Getpid())
 	fr := fragment{Property: r.Prop, Test: r.Test, Shard: r.shard, NShards: r.nshards, Tier: r.tier, Seed: r.seed,
 		Evals: r.evals, NTEnum: r.ntEnum, NTHashed: len(r.hashes), CapHit: r.capHit, Counters: r.counters,
 		Samples: r.samples, Exhaustive: r.exh, Assume: r.assume, Notes: r.notes, Known: r.knownHit,
